@@ -18,7 +18,7 @@ def ensure_wt():
     if not os.path.isdir(WT):
         r = sh(f"git -C /repo worktree add -q --detach {WT} HEAD")
         assert r.returncode == 0, r.stderr
-    sh(f"git -C {WT} checkout -q --detach $(git -C /repo rev-parse HEAD) && git -C {WT} checkout -- . && git -C {WT} clean -fdq")
+    sh(f"git -C {WT} reset -q --hard; git -C {WT} checkout -q --detach $(git -C /repo rev-parse HEAD) && git -C {WT} reset -q --hard && git -C {WT} clean -fdq")
     os.makedirs(os.path.join(WT, "out"), exist_ok=True)
 
 
@@ -37,6 +37,10 @@ def main():
     if r.returncode != 0:      # the tree has moved on since the change was written (later fix: commits): merge it
         r = sh(f"git -C {WT} apply --3way {patch}")
         rec["applied_with_3way"] = True
+        if r.returncode != 0 or "with conflicts" in (r.stdout + r.stderr):
+            sh(f"git -C {WT} reset -q --hard")
+            rec["error"] = "patch needs rebasing onto the current tree: " + (r.stdout + r.stderr)[-300:]
+            print(json.dumps(rec, indent=1)); return 2
     if r.returncode != 0:
         rec["error"] = "patch does not apply: " + r.stderr[-300:]
         print(json.dumps(rec, indent=1)); return 2
@@ -57,7 +61,7 @@ def main():
                 rec["checks"][f"{p}@seed{sd}"] = {"exit": r.returncode, "wall_s": round(time.time() - t0, 1), "lines": lines[:6]}
         shutil.rmtree(out, ignore_errors=True)
     finally:
-        sh(f"git -C {WT} checkout -- . && git -C {WT} clean -fdq")
+        sh(f"git -C {WT} reset -q --hard && git -C {WT} clean -fdq")
     print(json.dumps(rec, indent=1))
     return 0
 
